@@ -164,3 +164,12 @@ func Visited[K comparable, V any](m map[K]V, k K) bool { return true }
 // Fresh: the map, slice or pointer x was allocated during the call that the
 // contract describes (verifier only; at run time it cannot be observed).
 func Fresh[T any](x T) bool { return true }
+
+// DynResult: the value returned by the k-th dynamic call (k = 0, 1, …, in
+// execution order of the verified run) of the niladic method named method, made
+// on receiver recv, for methods listed under `ghostresult` in the contract
+// (verifier only; meaningless at run time).
+func DynResult[T any](method string, recv any, k int) T {
+	var zero T
+	return zero
+}
